@@ -11,6 +11,13 @@ PART = {
                 "asynchronously). After every participant of an epoch completed or failed, the finished DBState of each node is read back from its "
                 "dkg.db: groups compared field by field (+hash), indices = rank of the public key, share on the public polynomial at its own index, "
                 "all t-subsets (n<=5) / 20 sampled subsets of the shares recover a signature that verifies under the group key. "
+                "Two directed families (every 6th case each): silent-participant = one participant of the first DKG or of the reshare, chosen by seed "
+                "among all but the largest key, n>=4, threshold <= n-1, is unreachable and mute from just before the execution (crash), so the others "
+                "complete with a strict subset and indices / share-at-group-index / t-subsets are checked on a QUAL with a hole; late-execute = "
+                "period 1 s, the execute gossip packet towards one follower arrives 1.6-2.5 s late (after the kick-off time) followed IN ORDER by "
+                "everything sent to it meanwhile. A transition-time disagreement is named by what was observed: the store tap records when each "
+                "node's SaveFinished returned; completions in different beacon rounds (or less than 300 ms into a round, or timer lag >150 ms) => "
+                ".../completion-straddles-round-boundary, all completions >=300 ms inside ONE round => .../completions-in-same-round. "
                 "non-trivial = at least one epoch completed on >=1 node AND the bus actually delayed/duplicated/reordered something; "
                 "distinct by (scheme,n,t,period,reshare plan,observed delivery order hash). A case whose bundles took longer than 3/4 of the DKG "
                 "phase timeout, or whose traffic did not drain between epochs, is inconclusive (synchrony assumption of the protocol).",
@@ -32,7 +39,11 @@ PART = {
                 "leader's real key (stale epoch, nil / empty terms, expired timeout, threshold below minimum / above n, member dropped, genesis time / "
                 "seed changed, unknown scheme, leader not remaining / leaving / joining, foreign beacon id), forged accept/reject/abort/execute packets "
                 "claiming leader / remainer / joiner / leaver / outsider (well signed or signed by somebody else), replays of recorded packets, commands "
-                "from the wrong node. Oracle: (a)-(c) on EVERY write that reaches a node's bolt store (store tap, raw records read before/after the "
+                "from the wrong node. Directed family 'left' (every 30th history): epoch 1, 1-2 reshares with everybody remaining, a reshare in which "
+                "node X leaves and the others complete (X holds Left@E, E>=3, finished E-1), optionally one more epoch without X; X is then sent 16 "
+                "invalid invitation classes correctly signed by a current member (stale epochs E, E-1, E-2, epoch 1 in first-proposal shape, expired "
+                "timeout, threshold low/high, unknown scheme, genesis time/seed changed, leader joining/leaving, nil/empty terms, foreign beacon "
+                "id, X missing) and finally the valid re-invitation by a real command, which must be accepted. Oracle: (a)-(c) on EVERY write that reaches a node's bolt store (store tap, raw records read before/after the "
                 "write): legal edge for the node's place in the proposal per the harness's own table incl. the terminal-state fall-back, epoch "
                 "monotone, finished record bytes replaced only by SaveFinished(Complete, higher epoch) from Executing; per step: an error answer "
                 "leaves the finished record byte-identical, invalid proposal classes are refused and write nothing, a panic of the real code is a "
